@@ -1,6 +1,6 @@
 (* C02 - cursors enumerate records in key order.  Statements only. *)
 Require Import List ZArith Lia. Import ListNotations.
-Require Import IW.KV.Node IW.KV.Spec IW.KV.Cursor IW.KV.Cursor_proofs IW.KV.Node_proofs IW.KV.CursorGe_proofs IW.KV.Inst IW.KV.Keys_proofs IW.Gen.Facts.
+Require Import IW.KV.Node IW.KV.Spec IW.KV.Cursor IW.KV.Cursor_proofs IW.KV.Node_proofs IW.KV.CursorGe_proofs IW.KV.Keys IW.KV.Inst IW.KV.Keys_proofs IW.KV.Match_proofs IW.Gen.Facts.
 
 (* For EVERY chain of non-empty nodes with distinct identities (any number of nodes, any node sizes) and whatever
    state the cursor was in before: BEFORE_FIRST followed by repeated NEXT (reading the record after each successful
@@ -94,3 +94,35 @@ Proof.
   - unfold ids_unique. simpl. repeat constructor; simpl; intuition discriminate.
   - unfold nonempty_nodes. repeat constructor; simpl; discriminate.
 Qed.
+
+(* Matching the key (iwkv_cursor_is_matched_key) acts on exactly the record under the cursor: for number keys the caller's
+   4- or 8-byte number goes through the same entry point as put/get and the answer is "the stored key is that key"; for byte
+   keys it is equality with the stored key bytes; with no record under the cursor there is no answer.  The answer before the
+   repair 5300b87 (sizes compared first) said "no" to the 4-byte form of the very key the cursor was opened with. *)
+Theorem C02_match_number_keys : forall (d : db) (slot : nat) (k0 k : list Z) (c0 comp : Z) (ek0 ek : key) (v : value),
+  km_vnum (d_mode d) = true -> bytes k0 -> bytes k ->
+  eff_key (d_mode d) k0 c0 = (ROk, ek0) -> eff_key (d_mode d) k comp = (ROk, ek) ->
+  db_cread d slot = Some (ek0, v) ->
+  db_cmatch d slot k = Some (bytes_eqb (fst ek0) (fst ek)).
+Proof. exact cmatch_number_keys. Qed.
+Print Assumptions C02_match_number_keys.
+
+Theorem C02_match_byte_keys : forall (d : db) (slot : nat) (k : list Z) (ek0 : key) (v : value),
+  km_vnum (d_mode d) = false -> db_cread d slot = Some (ek0, v) ->
+  db_cmatch d slot k = Some (bytes_eqb (fst ek0) k).
+Proof. exact cmatch_byte_keys. Qed.
+Print Assumptions C02_match_byte_keys.
+
+Theorem C02_match_bytes_eqb_is_equality : forall a b, bytes_eqb a b = true <-> a = b.
+Proof. exact bytes_eqb_eq. Qed.
+Print Assumptions C02_match_bytes_eqb_is_equality.
+
+Theorem C02_match_no_record : forall (d : db) (slot : nat) (k : list Z), db_cread d slot = None -> db_cmatch d slot k = None.
+Proof. exact cmatch_no_record. Qed.
+Print Assumptions C02_match_no_record.
+
+Theorem C02_match_old_refuted :
+  exists (d : db) (k : list Z) ek v, eff_key (d_mode d) k 0%Z = (ROk, ek) /\ db_cread d 0%nat = Some (ek, v) /\
+    db_cmatch_old d 0%nat k = Some false /\ db_cmatch d 0%nat k = Some true.
+Proof. exact cmatch_old_refuted. Qed.
+Print Assumptions C02_match_old_refuted.
